@@ -20,7 +20,7 @@ From SK Require Import lib.Tok lib.LGraph model.C03_Model proof.C03_Spec proof.C
                        proof.C03_ExplicitH proof.C03_ExplicitShape proof.C03_ExplicitTotal proof.C03_Expand
                        proof.C03_Link proof.C03_Default proof.C03_Iso
                        proof.C03_Skeleton proof.C03_StripCounts
-                       proof.C03_Wiring proof.C03_WiringCount.
+                       proof.C03_Wiring proof.C03_WiringCount proof.C03_PairIds.
 Import ListNotations.
 Local Open Scope Z_scope.
 
@@ -346,6 +346,39 @@ Theorem C03_explicitH_grouped_iff : forall (T : its) (x : N),
   grouped T x = true <-> exists (A : inode) (pid : N), In (x, A) (gnodes T) /\ In pid (hp_of A).
 Proof. exact grouped_iff. Qed.
 Print Assumptions C03_explicitH_grouped_iff.
+
+(** where the pair ids come from and where they go — the link between the groups of [C03_explicitH_wiring] and the
+    TEMPLATE's own hydrogen transfers.  Default-mode rule preparation (template without h_pairs of its own): two rule
+    atoms share a pair id only if both were bonded to ONE explicit hydrogen atom of the template; gluing copies the
+    rule's pair ids onto the matched atoms and nothing else; hence two atoms of a proposed ITS share a pair id only if
+    they are the images of two template atoms bonded to one template hydrogen.  (Converse — every stripped shared
+    hydrogen does hand its id to all its heavy neighbours — correspondence only.) *)
+Theorem C03_default_pair_ids : forall (tpl rc : its) (l r : molg),
+  nodupb (node_ids tpl) = true -> (forall (k : N) (a : inode), In (k, a) (gnodes tpl) -> i_hp a = None) ->
+  synrule tpl true = Some (rc, l, r) ->
+  forall (x y : N) (A B : inode) (p : N),
+    In (x, A) (gnodes rc) -> In (y, B) (gnodes rc) -> In p (hp_of A) -> In p (hp_of B) ->
+    exists h : N, is_H_i tpl h = true /\ In x (nbrs tpl h) /\ In y (nbrs tpl h).
+Proof. exact synrule_default_pairs. Qed.
+Print Assumptions C03_default_pair_ids.
+
+Theorem C03_glue_pair_ids : forall (host : hostg) (rc : its) (m : mapping) (T : its) (a b : N),
+  wf_hostb host = true -> wf_rcb rc = true -> match_rcb host rc m = true -> glue host rc m = Some T ->
+  share_pair T a b ->
+  exists (x y : N) (X Y : inode) (p : N),
+    mget m x = Some a /\ mget m y = Some b /\ In (x, X) (gnodes rc) /\ In (y, Y) (gnodes rc) /\
+    In p (hp_of X) /\ In p (hp_of Y).
+Proof. exact glue_share_pair. Qed.
+Print Assumptions C03_glue_pair_ids.
+
+Theorem C03_default_wiring_template : forall (tpl rc : its) (l r : molg) (host : hostg) (m : mapping) (T : its) (a b : N),
+  nodupb (node_ids tpl) = true -> (forall (k : N) (n : inode), In (k, n) (gnodes tpl) -> i_hp n = None) ->
+  synrule tpl true = Some (rc, l, r) ->
+  wf_hostb host = true -> wf_rcb rc = true -> match_rcb host rc m = true -> glue host rc m = Some T ->
+  share_pair T a b ->
+  exists (x y h : N), mget m x = Some a /\ mget m y = Some b /\ is_H_i tpl h = true /\ In x (nbrs tpl h) /\ In y (nbrs tpl h).
+Proof. exact default_share_pair_template. Qed.
+Print Assumptions C03_default_wiring_template.
 
 (** gluing followed by _explicit_h: a balanced rule still yields a balanced reaction whose reactant side has the
     substrate's element counts and, between substrate atoms, exactly the substrate's bonds *)
